@@ -29,6 +29,7 @@ PROPS["C13"] = dict(
         "Zrnt.Proofs.C13.incremental_deposit_root_prefix",
         "Zrnt.Proofs.C13.listRoot_eq_spec",
         "Zrnt.Proofs.C13.inc_root_eq_depositListRoot",
+        "Zrnt.Proofs.C13.deposit_proof_verifies",
         "Zrnt.Proofs.C13.genesis_eq_spec_partial",
         "Zrnt.Proofs.C13.kickstart_is_genesis_partial",
         "Zrnt.Proofs.C13.genesis_effective_balance",
